@@ -4,4 +4,5 @@ MC_NoVars == << >>
 MC_NoSets == << >>
 MC_NoPaths == [x \in {} |-> << >>]
 MC_LineAny(i, d, ic, a, c) == TRUE
+MC_SolveAny(ss, st) == TRUE
 =============================================================================
